@@ -415,10 +415,17 @@ func verifH_C05_text() {
 		if at < 0 {
 			break
 		}
-		d := verifU8(fmt.Sprintf("digit%d", i))
-		verifAssume(verifAnd(d >= '0', d <= '9'))
-		lits[i] = int64(d - '0')
-		text = text[:at] + string([]byte{d}) + text[at+2:]
+		// digits=k: the literal has k decimal digits, each symbolic (so leading zeros occur)
+		nd := verifParam("digits", 1)
+		var ds []byte
+		lits[i] = 0
+		for k := 0; k < nd; k++ {
+			d := verifU8(fmt.Sprintf("digit%d_%d", i, k))
+			verifAssume(verifAnd(d >= '0', d <= '9'))
+			lits[i] = lits[i]*10 + int64(d-'0')
+			ds = append(ds, d)
+		}
+		text = text[:at] + string(ds) + text[at+2:]
 	}
 	stmt, err := parseSQL(text)
 	verifAssert(err == nil, "parses")
